@@ -53,6 +53,8 @@ def zero_tested(divisor, fn, at):
     """the divisor (a local) is known non-zero on the path to `at` through an `== zero` test whose
     true branch returns Err"""
     name = render(strip(divisor))
+    # facts are stated over let definitions (pathcond.resolve_named): compare with the divisor's definition as well
+    names = {name, render(resolve(divisor, fn, at))}
     conds = conditions_to(fn["body"], at) or []
     for f in conds:
         if f[0] != "if":
@@ -61,9 +63,9 @@ def zero_tested(divisor, fn, at):
         if e["k"] == "Binary" and e["op"] in ("==", "!="):
             l, r = render(strip(e["l"])), render(strip(e["r"]))
             other = None
-            if l == name:
+            if l in names:
                 other = e["r"]
-            elif r == name:
+            elif r in names:
                 other = e["l"]
             if other is None:
                 continue
@@ -72,7 +74,7 @@ def zero_tested(divisor, fn, at):
             is_zero = ot in ("BigInt::from(0)", "0", "BigInt::zero()", "Zero::zero()", "constant_false()")
             if is_zero and ((e["op"] == "==" and not f[2]) or (e["op"] == "!=" and f[2])):
                 return True
-        if e["k"] == "MethodCall" and e["method"] == "is_zero" and render(strip(e["recv"])) == name and not f[2]:
+        if e["k"] == "MethodCall" and e["method"] == "is_zero" and render(strip(e["recv"])) in names and not f[2]:
             return True
     return False
 
